@@ -31,8 +31,8 @@ def describe(v):
 def compare_graphs(before, after, args, optimizations, passes):
     """-> None or a description of the disagreement"""
     import einx._src.tracer as tracer
-    a1 = [np.array(a, copy=True) if isinstance(a, np.ndarray) else a for a in args]
-    a2 = [np.array(a, copy=True) if isinstance(a, np.ndarray) else a for a in args]
+    a1 = [np.array(a, copy=True, order="K") if isinstance(a, np.ndarray) else a for a in args]
+    a2 = [np.array(a, copy=True, order="K") if isinstance(a, np.ndarray) else a for a in args]
     try:
         r1, n1 = interp.run_graph(before, a1)
     except Exception as e:  # noqa
@@ -80,6 +80,13 @@ def work_corpus(chunk):
             hist["pairs"] += 1
             hist[f"passes={rec['passes']}"] += 1
             msg, skip = compare_graphs(rec["before"], rec["after"], args, rec["optimizations"], rec["passes"])
+            if msg is None and not skip and any(a.ndim >= 2 for a in args):
+                # same graphs on non-contiguous inputs (Fortran order): reshape then copies instead of returning a view, which makes a lost
+                # sharing of an in-place target visible
+                fargs = [np.asfortranarray(a) if a.ndim >= 2 else a for a in args]
+                hist["layout-variants"] += 1
+                msg, skip2 = compare_graphs(rec["before"], rec["after"], fargs, rec["optimizations"], None)
+                if msg is not None: msg = "[Fortran-ordered inputs] " + msg
             if skip: hist["skip-run"] += 1
             elif msg is None: hist["agree"] += 1
             else:
